@@ -65,7 +65,7 @@ Proof. cbv zeta. split; [|split; vm_compute; reflexivity]. unfold brackets, in64
    from the current source on every run (Generated/Kernels.v); each tie states that the translated
    function equals the model definition used above, on the whole range of the Go types
    (Generated/KernelTie.v; `True` for a kernel the translator reports as not translated). ---- *)
-From BS Require Import Generated.KernelTie Proofs.KernelEquivM.
+From BS Require Import Generated.KernelTie Proofs.KTie_clamp_u Proofs.KTie_update_mm Proofs.KTie_eval_minmax Proofs.KTie_eval_numeric Proofs.KTie_eval_string.
 
 Theorem C04_kernel_tie_clamp_u : tie_clamp_u.
 Proof. exact k_clamp_u_tie. Qed.
